@@ -119,6 +119,8 @@ fn span_json<'tcx>(tcx: TyCtxt<'tcx>, sp: Span) -> J {
         return J::Null;
     }
     let sm = tcx.sess.source_map();
+    let exp = sp.from_expansion();
+    let sp = if exp { sp.source_callsite() } else { sp };
     let lo = sm.lookup_char_pos(sp.lo());
     let hi = sm.lookup_char_pos(sp.hi());
     let file = format!("{}", lo.file.name.prefer_local_unconditionally());
@@ -127,7 +129,7 @@ fn span_json<'tcx>(tcx: TyCtxt<'tcx>, sp: Span) -> J {
         ("line", J::Int(lo.line as i128)),
         ("col", J::Int(lo.col.0 as i128 + 1)),
         ("end_line", J::Int(hi.line as i128)),
-        ("exp", J::Bool(sp.from_expansion())),
+        ("exp", J::Bool(exp)),
     ])
 }
 
@@ -550,7 +552,17 @@ impl<'tcx> Cx<'tcx> {
                 ("b", self.operand_json(body, &ab.1, owner)),
             ]),
             mir::Rvalue::UnaryOp(uop, a) => obj(vec![("r", s("unop")), ("uop", s(format!("{:?}", uop))), ("a", self.operand_json(body, a, owner))]),
-            mir::Rvalue::Discriminant(p) => obj(vec![("r", s("discr")), ("place", self.place_json(body, *p))]),
+            mir::Rvalue::Discriminant(p) => {
+                let pty = p.ty(&body.local_decls, tcx).ty;
+                let mut f: Vec<(&str, J)> = vec![("r", s("discr")), ("place", self.place_json(body, *p)), ("ety", s(tystr(pty)))];
+                if let ty::Adt(adt, _) = pty.kind() {
+                    if adt.is_enum() {
+                        f.push(("enum", s(defstr(tcx, adt.did()))));
+                        f.push(("variants", J::Arr(adt.variants().iter().map(|v| s(v.name.to_string())).collect())));
+                    }
+                }
+                obj(f)
+            },
             mir::Rvalue::Aggregate(kind, ops) => {
                 let mut f: Vec<(&str, J)> = vec![("r", s("aggregate"))];
                 match &**kind {
@@ -758,6 +770,7 @@ fn span_line<'tcx>(tcx: TyCtxt<'tcx>, sp: Span) -> J {
     if sp.is_dummy() {
         return J::Null;
     }
+    let sp = if sp.from_expansion() { sp.source_callsite() } else { sp };
     let lo = tcx.sess.source_map().lookup_char_pos(sp.lo());
     J::Int(lo.line as i128)
 }
